@@ -173,7 +173,8 @@ def replay_accessors(name, seed=0):
                 Q = torch.eye(D, dtype=torch.float64)
                 Q, _ = m.inverse(Q)
                 y, lad = m(x)
-                worst = max(float((y - x @ Q.t()).abs().max()), float((Q.t() @ Q - torch.eye(D, dtype=torch.float64)).abs().max()), float(lad.abs().max()))
+                M = m.matrix().double()
+                worst = max(float((y - x @ Q.t()).abs().max()), float((Q.t() @ Q - torch.eye(D, dtype=torch.float64)).abs().max()), float(lad.abs().max()), float((y - x @ M.t()).abs().max()))
             else:
                 W, Wi, lad = m.weight(), m.weight_inverse(), m.logabsdet()
                 y, l = m.forward_no_cache(x)
@@ -185,6 +186,17 @@ def replay_accessors(name, seed=0):
                     float((xi - x).abs().max()),
                     float((l + li).abs().max()),
                 )
+                import copy
+
+                m32 = copy.deepcopy(m).float()  # (the combined accessors build a float32 identity internally)
+                for acc in ("weight_and_logabsdet", "weight_inverse_and_logabsdet"):
+                    if hasattr(m32, acc):
+                        A, la = getattr(m32, acc)()
+                        ref = W if acc == "weight_and_logabsdet" else Wi
+                        dev = max(float((A.double() - ref).abs().max()), abs(float(la) - float(lad)))
+                        res["combined_accessor_deviation_float32"] = max(res.get("combined_accessor_deviation_float32", 0.0), dev)
+                        if dev > 1e-3 * max(1.0, float(ref.abs().max())):
+                            worst = max(worst, dev)
         res["max_deviation"] = worst
         res["reproduced"] = not (worst < 1e-8)
     except Exception as e:  # noqa
